@@ -25,7 +25,63 @@ def literal(prog, modname, name, func=None):
     try:
         return ast.literal_eval(v), node
     except Exception:
-        raise AnalysisError(f'table {modname}.{name} is no longer a literal (cannot be compared without running code)')
+        pass
+    if func is None:
+        val = computed(prog, m, name)
+        if val is not None:
+            return val, node
+    raise AnalysisError(f'table {modname}.{name} is neither a literal nor computed by code the analysis interpreter can evaluate')
+
+
+def computed(prog, m, name):
+    """a module-level table built by code (a loop filling an array, a helper function returning it): the module's top-level
+    statements that bind or fill `name` are interpreted by sa.symtensor on concrete integers - the repository is still not imported;
+    what is evaluated is this analysis's reading of the statements.  -> nested lists of ints, or None when not evaluable"""
+    from . import symtensor, ratfun
+    np = symtensor.np
+    if np is None:
+        return None
+
+    class _Top:                      # the module body presented as a function without parameters
+        pass
+    top = _Top()
+    top.mod, top.cls, top.parent, top.params, top.key, top.name = m, None, None, [], f'{m.name}:<module>', '<module>'
+    stmts = []
+    last = -1
+    for i, st in enumerate(m.tree.body):
+        if isinstance(st, (ast.Import, ast.ImportFrom, ast.FunctionDef, ast.AsyncFunctionDef, ast.ClassDef)):
+            continue
+        if isinstance(st, ast.Expr) and isinstance(st.value, ast.Constant):
+            continue
+        stmts.append(st)
+        if any(isinstance(n, ast.Name) and n.id == name and isinstance(n.ctx, ast.Store) for n in ast.walk(st)) or \
+                any(isinstance(n, ast.Subscript) and isinstance(n.value, ast.Name) and n.value.id == name and isinstance(n.ctx, ast.Store) for n in ast.walk(st)):
+            last = len(stmts)
+    if last < 0:
+        return None
+    top.node = ast.FunctionDef(name='<module>', args=ast.arguments(posonlyargs=[], args=[], kwonlyargs=[], kw_defaults=[], defaults=[]), body=stmts[:last], decorator_list=[], lineno=1, col_offset=0)
+    te = symtensor.TensorEval(prog, None, {})
+    te.numeric = True
+    env = {}
+    for st in stmts[:last]:
+        mentions = any(isinstance(n, ast.Name) and n.id == name for n in ast.walk(st))
+        try:
+            te.block(top, [st], env)
+        except (ratfun.Unknown, symtensor.Raised, Exception):
+            if mentions:
+                return None          # a statement that shapes the table could not be evaluated
+            for n in ast.walk(st):       # an unrelated statement: its targets are unknown from here on
+                if isinstance(n, ast.Name) and isinstance(n.ctx, ast.Store):
+                    env.pop(n.id, None)
+    v = env.get(name)
+    if isinstance(v, np.ndarray) and v.dtype != object:
+        return v.tolist()
+    if isinstance(v, (list, tuple)):
+        try:
+            return np.array(v).tolist()
+        except Exception:
+            return None
+    return None
 
 
 def where(prog, modname, node):
